@@ -18,7 +18,7 @@ impl Prop for C17 {
         "C17"
     }
     fn rule_text(&self) -> String {
-        "case = tap-dance (lazy / eager) with 1-4 distinct marker actions, T in {2,5,20,200}, one other plain key; schedules: 1-6 taps with press-to-press gaps from {T-1,T,T+1,small}, the last tap optionally held, optionally interrupted by the other key, then silence. A reference function segments the presses into dances by the 'gap < T' rule and predicts the marker sequence. non-trivial = a marker was output; distinct = config x schedule hash.".into()
+        "case = tap-dance (lazy / eager) with 1-4 distinct marker actions, T in {2,5,20,200}, one other plain key; schedules: 1-6 taps with press-to-press gaps from {T-1,T,T+1,small}, the last tap optionally held, optionally interrupted by the other key, or the other key already held before the dance and released at an arbitrary point of it, then silence. A reference function segments the presses into dances by the 'gap < T' rule and predicts the marker sequence. non-trivial = a marker was output; distinct = config x schedule hash.".into()
     }
     fn runs(&self, tier: Tier) -> u64 {
         match tier {
@@ -43,6 +43,13 @@ impl Prop for C17 {
         let mut ops = vec![];
         let interrupt_at = if r.chance(350) { Some(r.range(1, n)) } else { None };
         let hold_last = r.chance(300);
+        // the other key may already be held when the dance starts and be released at any point of
+        // it: a release is not a press, so it must not end the count
+        let held_other = interrupt_at.is_none() && r.chance(300);
+        if held_other {
+            ops.push(Op::Press(b));
+            ops.push(Op::Gap(r.range(1, 8) as u32));
+        }
         for i in 0..n {
             if i > 0 {
                 // press-to-press gap from the grid; the release happens inside it
@@ -66,6 +73,22 @@ impl Prop for C17 {
         ops.push(Op::Gap(hold as u32));
         ops.push(Op::Release(a));
         ops.push(Op::Gap((t + 60) as u32));
+        if held_other {
+            let first_a = ops.iter().position(|o| *o == Op::Press(a)).unwrap_or(0);
+            // in a millisecond of its own (events sharing a millisecond queue up and are processed
+            // one per tick, which would shift the processing time of the next tap)
+            let gaps: Vec<usize> = (first_a..ops.len()).filter(|i| matches!(ops[*i], Op::Gap(n) if n >= 2)).collect();
+            if gaps.is_empty() {
+                ops.push(Op::Release(b));
+            } else {
+                let gi = *r.pick(&gaps);
+                let Op::Gap(n) = ops[gi] else { unreachable!() };
+                let k = r.range(1, n as u64 - 1) as u32;
+                ops[gi] = Op::Gap(k);
+                ops.insert(gi + 1, Op::Release(b));
+                ops.insert(gi + 2, Op::Gap(n - k));
+            }
+        }
         case.ops = ops;
         case.set("eager", eager as u8);
         case.set("len", len);
